@@ -12,6 +12,7 @@ import OFV.Proofs.C16
 import OFV.Proofs.C16Pauli
 import OFV.Proofs.C16Loop
 import OFV.Proofs.C16Proj
+import OFV.Proofs.C16Embed
 
 namespace OFV.C16
 open OFV OFV.Spec OFV.Model OFV.Model.C16 OFV.C16P OFV.Generated
@@ -194,37 +195,41 @@ example : (match reduceTerms eqTolerance [([(0, 3), (1, 3)], 1), ([(0, 2), (1, 2
 
 /-! ### `project_onto_sector` as matrix elements between embedded states
 
-`Emb qubits sectors E` says that `E` embeds basis states of the small register into the full one:
-kept qubit `q` sits at bit `shiftDown qubits q` of the small mask, removed qubits carry their
-sector value (OFV/Proofs/C16Proj.lean; `emb_example` is an instance). -/
+`Emb n qubits sectors E` says that `E` embeds basis states of the small register (`n - k` qubits) into
+the full one (`n` qubits): kept qubit `q` sits at bit `shiftDown qubits q` of the small mask, removed
+qubits carry their sector value, `E` is injective on masks `< 2^(n-k)` (OFV/Proofs/C16Proj.lean).
+`embed_emb` proves it for the embedding the Spec oracle uses, for every list of distinct qubits. -/
 
 /-- **a kept term** (Pauli codes 1..3, no `X` / `Y` on a removed qubit): its matrix elements between
 embedded states are those of the re-indexed term times `(-1)^(number of Z on sector-1 qubits)` —
 the coefficient `project_onto_sector` stores.  Tolerance-free, any term length. -/
-theorem project_term_kept (qubits sectors : List Nat) (E : Nat → Nat) (hE : Emb qubits sectors E)
+theorem project_term_kept (n : Nat) (qubits sectors : List Nat) (E : Nat → Nat) (hE : Emb n qubits sectors E)
+    (hq : qubits.Nodup) (hqn : ∀ q ∈ qubits, q < n)
     (hsec : ∀ q, sectors[indexOf qubits q]?.getD 0 = 0 ∨ sectors[indexOf qubits q]?.getD 0 = 1)
-    (τ : Model.Term) (hp : Pauli123 τ) (hz : ∀ f ∈ τ, f.1 ∈ qubits → f.2 = 3) (s t : Nat) :
+    (τ : Model.Term) (hp : Pauli123 τ) (hz : ∀ f ∈ τ, f.1 ∈ qubits → f.2 = 3) (hn : ∀ f ∈ τ, f.1 < n)
+    (s t : Nat) (hs : s < 2 ^ (n - qubits.length)) (ht : t < 2 ^ (n - qubits.length)) :
     Sem.termCoef .qubit τ [E s] [E t]
       = GQ.sgn (expo qubits sectors τ) * Sem.termCoef .qubit (newTerm qubits τ) [s] [t] :=
-  termCoef_kept qubits sectors E hE hsec τ hp hz s t
+  termCoef_kept n qubits sectors E hE hq hqn hsec τ hp hz hn s t hs ht
 
 /-- **a dropped term** (`X` or `Y` on a removed qubit, distinct qubit indices) has no matrix element
 inside the sector. -/
-theorem project_term_dropped (qubits sectors : List Nat) (E : Nat → Nat) (hE : Emb qubits sectors E)
+theorem project_term_dropped (n : Nat) (qubits sectors : List Nat) (E : Nat → Nat) (hE : Emb n qubits sectors E)
     (τ : Model.Term) (hd : τ.Pairwise (fun a b => a.1 ≠ b.1))
     (hxy : τ.any (fun t => qubits.contains t.1 && (t.2 == 1 || t.2 == 2)) = true) (s t : Nat) :
     Sem.termCoef .qubit τ [E s] [E t] = 0 :=
-  termCoef_dropped qubits sectors E hE τ hd hxy s t
+  termCoef_dropped n qubits sectors E hE τ hd hxy s t
 
 /-- **`project_onto_sector_sound`** at the live tolerance: if `project_onto_sector` succeeds on an
-operator whose terms are Pauli strings on distinct qubits and the exactness flag of the run is `true`
-(every `projected_operator +=` in the exact regime; reported by the driver for every generated
-input), then `⟨t| projected |s⟩ = ⟨E t| operator |E s⟩` for all basis states `s, t` of the small
-register — the matrix elements of the shared Spec (`Spec.applyOp .qubit`). -/
-theorem project_onto_sector_sound (tol : Rat) (A B : Model.Op) (qubits sectors : List Nat) (E : Nat → Nat)
-    (hE : Emb qubits sectors E)
-    (hA : ∀ e ∈ A, Pauli123 e.1 ∧ e.1.Pairwise (fun a b => a.1 ≠ b.1))
-    (h : projectOntoSector tol A qubits sectors = .ok (B, true)) (s t : Nat) :
+operator on `n` qubits whose terms are Pauli strings on distinct qubits and the exactness flag of the
+run is `true` (every `projected_operator +=` in the exact regime; reported by the driver for every
+generated input), then `⟨t| projected |s⟩ = ⟨E t| operator |E s⟩` for all basis states `s, t` of the
+small register — the matrix elements of the shared Spec (`Spec.applyOp .qubit`). -/
+theorem project_onto_sector_sound (tol : Rat) (n : Nat) (A B : Model.Op) (qubits sectors : List Nat)
+    (E : Nat → Nat) (hE : Emb n qubits sectors E) (hq : qubits.Nodup) (hqn : ∀ q ∈ qubits, q < n)
+    (hA : ∀ e ∈ A, Pauli123 e.1 ∧ e.1.Pairwise (fun a b => a.1 ≠ b.1) ∧ ∀ f ∈ e.1, f.1 < n)
+    (h : projectOntoSector tol A qubits sectors = .ok (B, true)) (s t : Nat)
+    (hs : s < 2 ^ (n - qubits.length)) (ht : t < 2 ^ (n - qubits.length)) :
     GV.coeff (applyOp .qubit B [s]) [t] = GV.coeff (applyOp .qubit A [E s]) [E t] := by
   unfold projectOntoSector at h
   split at h
@@ -244,19 +249,41 @@ theorem project_onto_sector_sound (tol : Rat) (A B : Model.Op) (qubits sectors :
           simp only [Option.getD_some]
           omega
       simp only [Except.ok.injEq] at h
-      have key := (project_fold tol qubits sectors E hE hsec s t A ([], true) hA (by rw [h])).2
+      have key := (project_fold tol n qubits sectors E hE hq hqn hsec s t hs ht A ([], true) hA (by rw [h])).2
       rw [h] at key
       simp only [Sem.den_nil, zero_add] at key
       exact key
 
-/-- non-vacuity: removing qubit 0 in sector 1 (`E s = 2s + 1`) from `Z0 X1 + X0` -/
-example : Emb [0] [1] (fun s => 2 * s + 1) ∧
-    (∀ e ∈ ([([(0, 3), (1, 1)], 1), ([(0, 1)], 1)] : Model.Op),
-      Pauli123 e.1 ∧ e.1.Pairwise (fun a b => a.1 ≠ b.1)) :=
-  ⟨emb_example, by
-    intro e he
-    simp only [List.mem_cons, List.not_mem_nil, or_false] at he
-    rcases he with rfl | rfl <;> simp [Pauli123]⟩
+/-- **the embedding the oracle uses is an `Emb`**, for every list of distinct removed qubits below `n`
+(kept qubits in increasing order, sector-1 qubits set). -/
+theorem spec_embed_is_emb (n : Nat) (qubits sectors : List Nat) (hq : qubits.Nodup)
+    (hqn : ∀ q ∈ qubits, q < n) (hl : qubits.length = sectors.length) :
+    Emb n qubits sectors (Spec.C16.embed (keptList n qubits) (onesList qubits sectors)) :=
+  embed_emb n qubits sectors hq hqn hl
+
+/-- **`project_onto_sector_sound` against the Spec embedding**: the statement the oracle
+`Spec.C16.embedDiff` evaluates, for all `s, t < 2^(n-k)`. -/
+theorem project_onto_sector_sound_spec (tol : Rat) (n : Nat) (A B : Model.Op) (qubits sectors : List Nat)
+    (hq : qubits.Nodup) (hqn : ∀ q ∈ qubits, q < n)
+    (hA : ∀ e ∈ A, Pauli123 e.1 ∧ e.1.Pairwise (fun a b => a.1 ≠ b.1) ∧ ∀ f ∈ e.1, f.1 < n)
+    (h : projectOntoSector tol A qubits sectors = .ok (B, true)) (s t : Nat)
+    (hs : s < 2 ^ (n - qubits.length)) (ht : t < 2 ^ (n - qubits.length)) :
+    GV.coeff (applyOp .qubit B [s]) [t]
+      = GV.coeff (applyOp .qubit A [Spec.C16.embed (keptList n qubits) (onesList qubits sectors) s])
+          [Spec.C16.embed (keptList n qubits) (onesList qubits sectors) t] := by
+  have hl : qubits.length = sectors.length := by
+    unfold projectOntoSector at h
+    split at h
+    · cases h
+    · rename_i hne; simpa using hne
+  exact project_onto_sector_sound tol n A B qubits sectors _ (embed_emb n qubits sectors hq hqn hl) hq hqn hA h
+    s t hs ht
+
+/-- non-vacuity: `Z0 X1 + X0` on 2 qubits, qubit 0 removed in sector 1, at the live tolerance -/
+example : (match projectOntoSector eqTolerance [([(0, 3), (1, 1)], 1), ([(0, 1)], 1)] [0] [1] with
+    | .ok r => r.2
+    | .error _ => false) = true ∧ Emb 2 [0] [1] (fun s => 2 * s + 1) :=
+  ⟨by decide +kernel, emb_example 2⟩
 
 /-- **`rotate_qubit_by_pauli_sound`**: for a Pauli string `P` on distinct qubits, `c² + s² = 1`,
 called with `cos 2θ = c² - s²`, `sin 2θ = 2cs`, the Model of `rotate_qubit_by_pauli` succeeds and
